@@ -421,7 +421,10 @@ def fs_obs():
     rp = ['fs_par2extent_get_unlock', 'fs_file2extent_get_unlock', 'tommy_tree_insert', 'tommy_tree_remove']
     return [Ob('fs.deallocate', 'harness/h_fs.c', 'h_fs_deallocate', route='dfcc', replace=rp, unwind=4, small_path=True, object_bits=12, solver=KISSAT, timeout=1800, mem=8, cost=20, replay=False,
                functions=['fs_deallocate (cmdline/elem.c)', 'extent_alloc (cmdline/elem.c)'],
-               note='every extent (parity position, file position, length) and every position inside it, probed at a symbolic position; tree operations and the extent finder by recording contracts (dfcc)')]
+               note='every extent (parity position, file position, length) and every position inside it, probed at a symbolic position; tree operations and the extent finder by recording contracts (dfcc)'),
+            ] + [Ob('fs.allocate.prev%d' % hp, 'harness/h_fs.c', 'h_fs_allocate', route='dfcc', replace=rp, defs={'HAVE_PREV': hp}, unwind=4, small_path=True, object_bits=12, solver=KISSAT, timeout=1800, mem=8, cost=20, replay=False,
+               functions=['fs_allocate (cmdline/elem.c)', 'extent_alloc (cmdline/elem.c)'],
+               note='every existing extent / new position / file position; an extent for the previous file block %s; tree operations and the extent finder by recording contracts (dfcc)' % ('exists' if hp else 'does not exist')) for hp in (0, 1)]
 
 
 def c06(tier, seed):
@@ -661,10 +664,10 @@ PROPS['C05'].update(
                  'the failed-set construction, the write-back guard and file_post of state_check_process are NOT under an obligation'],
     not_covered=['state_check_process loop (failed-set construction, write-back, DAMAGED marking)', 'file_post (rename to .unrecoverable, mtime)', 'state_import_fetch / state_search_fetch', 'second strategy of repair() (parity not updated)'])
 PROPS['C06'].update(
-    explanation='The decisions that make "recorded as synced" imply "parity valid", each on the real cmdline/sync.c: block_is_enabled processes a stripe iff it holds a file block and (a block with invalid parity or a forced full rebuild); the completion region marks blocks BLK and releases deleted blocks ONLY when the stripe had no error, no I/O error and any silent error was fixed; exactly then, if some block had invalid parity, raid_gen recomputes parity from the buffers and the write is scheduled; a silent or I/O error always leaves the stripe marked bad; the time is refreshed only when parity was really updated and no silent error occurred. After an in-memory repair every non-BLK failed block gets back exactly the bytes read (so the new parity is the parity of what is recorded) and the stripe counts as fixed iff every repaired block hashes to its record.',
+    explanation='The decisions that make "recorded as synced" imply "parity valid", each on the real cmdline/sync.c: block_is_enabled processes a stripe iff it holds a file block and (a block with invalid parity or a forced full rebuild); the completion region marks blocks BLK and releases deleted blocks ONLY when the stripe had no error, no I/O error and any silent error was fixed; exactly then, if some block had invalid parity, raid_gen recomputes parity from the buffers and the write is scheduled; a silent or I/O error always leaves the stripe marked bad; the time is refreshed only when parity was really updated and no silent error occurred. After an in-memory repair every non-BLK failed block gets back exactly the bytes read (so the new parity is the parity of what is recorded) and the stripe counts as fixed iff every repaired block hashes to its record. Block map: fs_deallocate replaces the extent containing the released position by extents that map exactly the other positions of the old one, each to the same file block (removed / shrunk at either end / split in two, never empty); fs_allocate extends an extent only when the new block is contiguous in parity AND in the file, else adds one one-block extent and never alters an existing mapping.',
     trusted_base=['fs_par2block_find / fs_deallocate / raid_gen / info_set by recording contracts (dfcc replace)', 'memhash by contract', 'region extraction of state_sync_process (3 regions)'],
-    assumptions=['bounded: 2 disk slots in quick (3 thorough), block size 8', 'that the bytes hashed are the bytes on disk, the writer threads, parity_write I/O, autosave ordering and histories are not addressed', 'fs_* extent-tree invariants (no overlap, every block mapped, monotone positions) are NOT under an obligation'],
-    not_covered=['fs_allocate / fs_deallocate / fs_check (tommy_tree)', 'parity_allocated_size / parity_used_size', 'io.c worker threads', 'state_write ordering vs parity_sync'])
+    assumptions=['bounded: 2 disk slots in quick (3 thorough), block size 8', 'that the bytes hashed are the bytes on disk, the writer threads, parity_write I/O, autosave ordering and histories are not addressed', 'the extent operations are checked against the extent the finder returns (tree lookups, inserts and removals by recording contracts); the global invariants of the two trees (no overlap, every block mapped, monotone positions) and fs_check are NOT under an obligation'],
+    not_covered=['fs_check and the tommy_tree implementation, fs_par2file_find / fs_file2par_find', 'parity_allocated_size / parity_used_size', 'io.c worker threads', 'state_write ordering vs parity_sync'])
 PROPS['C19'] = dict(level='other', obligations=c19)
 PROPS['C19'].update(
     explanation='What sync does with the hash of a block just read (region of state_sync_process, every block state / recorded hash / digest / hash size / migration flag): a block whose hash is only provisional (REP: inherited from a file with the same name, size and time-stamp, or replaced data) and does not match the data stops the stripe with a plain error - it is neither recorded nor "repaired" from parity, its state and hash are kept; a synced (BLK) block that no longer matches is a silent error queued for in-memory repair; matching data raises nothing; a pending (CHG) block forces a parity update unless its fresh hash equals a unique recorded one. Together with the completion region of C06 (no BLK unless the stripe had no error) this is "the data is hashed before its stripe is recorded as synced, and a mismatch stops the stripe".',
